@@ -166,7 +166,7 @@ class C19(Check):
     PROP = "C19"
     LEVEL = "exploration"
     RUNS = {"quick": 600, "thorough": 20000}
-    PROFILE = {"p_lazy": 1.0, "allow_frozen": False, "allow_class_dnc": False, "n_attrs": (2, 5)}
+    PROFILE = {"p_lazy": 1.0, "allow_frozen": False, "allow_class_dnc": False, "n_attrs": (2, 5), "allow_new_shapes": True}
     RULE = ("one evaluation = one simulated run: a generated lazily-bootstrapped class (plus optional spec/plain subclass), "
             "2-3 threads each doing a first use + construction + helper call under one seeded schedule (bounded "
             "pre-emptions d<=3 at library line events biased to the bootstrap code, PCT-like priorities, or random "
@@ -248,6 +248,7 @@ class C19(Check):
             for p in plans:
                 ref_out.append(do_thread_plan(ref_world, p))
             ref_desc = {r: describe_class(c) for r, c in ref_world.classes.items() if not r.startswith("__")}
+            ref_new = sorted(ref_world.built.new_log)
         except Exception as e:
             ref_exc = e
         if ref_exc is not None:
@@ -265,8 +266,8 @@ class C19(Check):
             seq_steps = probe.step
             hot = [i + 1 for i, (_, site) in enumerate(probe.trace_sites)
                    if site.split(":")[1] in ANCHORED or site.startswith("spec_class.py")]
-            shape = src.weighted([("bounded", 6), ("pct", 2), ("random", 2)])
-            pol = make_policy(src.rng, shape, seq_steps, hot, len(plans))
+            shape = src.weighted([("bounded", 2), ("site", 2.5), ("sync", 4), ("pct", 1), ("random", 1)])
+            pol = make_policy(src.rng, shape, seq_steps, list(probe.trace_sites) if shape == "site" else hot, len(plans))
             pol_json = policy_to_json(pol)
             sched = Sched(policy=pol, step_cap=50 * max(seq_steps, 100))
             ctx.bump("seq_steps", seq_steps)
@@ -307,6 +308,14 @@ class C19(Check):
                 ctx.violate({"invariant": "thread_result_equals_eager", "first_use": plans[i]["first_use"],
                              "field": _first_diff_key(t.result, ref_out[i])},
                             {"thread": i, "got": _short(t.result), "want": _short(ref_out[i]), "plan": plans[i]})
+        if not sched.deadlock and not sched.capped and not any(t.exc is not None for t in sched.threads):
+            # every instance (constructed or copied by a helper) is created through the same user-visible __new__ as
+            # in the eagerly bootstrapped twin: the lazy hook must hand instance creation back unchanged
+            got_new = sorted(world.built.new_log)
+            if got_new != ref_new:
+                ctx.violate({"invariant": "instance_creation_equals_eager", "new_shape": str(spec["host"].get("new_shape")),
+                             "sub": str((spec.get("sub") or {}).get("kind")) + ("+mixin" if (spec.get("sub") or {}).get("mixin_first") else "")},
+                            {"got": got_new[:12], "want": ref_new[:12]})
         if not sched.deadlock and not sched.capped:
             for role, cls in world.classes.items():
                 if role.startswith("__"):
